@@ -191,7 +191,7 @@ func (*SuffrageStateBuilder) prove(
 	height := proof.SuffrageHeight()
 
 	index := (height - prevheight - 1).Int64()
-	if index >= int64(len(proofs)) {
+	if index < 0 || index >= int64(len(proofs)) {
 		return errors.Errorf("wrong height")
 	}
 
